@@ -174,7 +174,7 @@ def norm(x):
 
 # the reflected operand forms the public operators accept (tests/test_geometry.py asserts the first and third; Area has no __mul__ of its own
 # and relies on the pose's reflected product): a form python now rejects is a pose that no longer acts on that operand through `*`
-REFLECTED_OK = {'position * pose', 'area * pose', 'orientation * pose'}
+REFLECTED_OK = {'position * pose', 'area * pose', 'orientation * pose', 'orientation * grid'}
 
 
 def oracles(ctx):
@@ -217,12 +217,27 @@ def oracles(ctx):
             except TypeError:
                 return None          # an operand form python rejects outright
         for label, got in (('position * pose', same_or_raises(lambda: p * t1, t1 * p)), ('area * pose', same_or_raises(lambda: arx * t1, t1 * arx)),
-                           ('orientation * pose', same_or_raises(lambda: o * t1, t1 * o))):
+                           ('orientation * pose', same_or_raises(lambda: o * t1, t1 * o)),
+                           ('orientation * grid', (lambda gg: same_or_raises(lambda: wire.cgrid(o * gg) == wire.cgrid(gg * o), True))(wire.mkgrid(gen.rand_grid(r, r.randint(1, 3), r.randint(1, 3)))))):
             base_ok = True
             if got is False or (got is None and label in REFLECTED_OK):
                 ctx.violation(f'reflected product `{label}` ' + ('is rejected with a TypeError' if got is None else 'does not agree with the plain product'), {'t': [t1.position.yx, t1.orientation.name], 'p': p.yx, 'o': o.name})
             elif got is True:
                 REFLECTED_OK.add(label)
+        # a pose is a mutable object (the agent's pose is updated in place by every move and turn): its inverse, its action and its products are
+        # those of its CURRENT value, whatever was computed from it before
+        from gym_gridverse.agent import Agent
+        live = Transform(Position(*t1.position.yx), t1.orientation)
+        ag = Agent(Position(*t1.position.yx), t1.orientation)
+        _ = (-live, live * p, live * t2, -ag.transform, ag.transform * p, ag.front())
+        live.position, live.orientation = Position(*t2.position.yx), t2.orientation
+        ag.position, ag.orientation = Position(*t2.position.yx), t2.orientation
+        fresh = Transform(Position(*t2.position.yx), t2.orientation)
+        for what, got_, exp_ in (('inverse', -live, -fresh), ('action on a position', live * p, fresh * p), ('product', live * t3, fresh * t3),
+                                 ('inverse of the agent pose', -ag.transform, -fresh), ('agent front', ag.front(), fresh * Position.from_orientation(Orientation.F))):
+            if got_ != exp_:
+                ctx.violation(f'after a pose was updated in place, its {what} is not the one of its current value',
+                              {'before': [t1.position.yx, t1.orientation.name], 'after': [t2.position.yx, t2.orientation.name], 'p': p.yx})
         tt = _copy.deepcopy(t1)
         tt *= t2
         oo = o
